@@ -23,7 +23,7 @@ class C13y_fixpoint_1phi(Contract):
     properties = ['C13']
     inline = True
     modifies = ['stmt.row', 'run_body.calls']
-    options = {'seq_len': {'stmt.row': 1}, 'bounded': 8}
+    options = {'seq_len': {'stmt.row': 1}, 'bounded': 8, 'bounded_refute': True}
     note = 'bounded stand-in: loop with 1 phi; one-atom class lattice; abstract (uninterpreted) body walk'
 
     def pre(self, stmt, run_body):
@@ -45,7 +45,7 @@ class C13y_fixpoint_2phi(Contract):
     properties = ['C13']
     inline = True
     modifies = ['stmt.row', 'run_body.calls']
-    options = {'seq_len': {'stmt.row': 2}, 'bounded': 8}
+    options = {'seq_len': {'stmt.row': 2}, 'bounded': 8, 'bounded_refute': True}
     note = 'bounded stand-in: loop with 2 phis; one-atom class lattice; abstract (uninterpreted) body walk'
 
     def pre(self, stmt, run_body):
